@@ -128,14 +128,20 @@ class RenegingPool(RenegingQueuedResource):
 
 
 class Ctl(Entity):
-    """applies scripted DynamicConcurrency.set_limit calls (the autoscaler of a model)"""
+    """applies scripted DynamicConcurrency.set_limit calls (the autoscaler of a model) and scripted
+    DeadlineQueue.purge_expired() housekeeping"""
 
     def __init__(self, name, stages):
         super().__init__(name)
         self._stages = stages
+        self.last_purge = None
 
     def handle_event(self, event):
         st = self._stages[event.context["stage"]]
+        if event.event_type == "purge":
+            pol = getattr(st, "policy", None)
+            self.last_purge = pol.purge_expired() if hasattr(pol, "purge_expired") else None
+            return []
         if isinstance(getattr(st, "model", None), DynamicConcurrency):
             st.model.set_limit(event.context["limit"])
         return []
@@ -227,6 +233,32 @@ def policy_counter_problem(policy, ref) -> str | None:
         return None
     if got != want:
         return f"policy counters {got} != reference tallies {want}"
+    return None
+
+
+def policy_query_problem(policy, ref, now_ns) -> str | None:
+    """the read-only public methods of a policy against the reference model"""
+    if isinstance(policy, BalkingQueue):
+        return policy_query_problem(policy.inner, ref.inner, now_ns)
+    if len(policy) != len(ref) or policy.is_empty() != (len(ref) == 0):
+        return f"len()={len(policy)} is_empty()={policy.is_empty()} with {len(ref)} held"
+    if isinstance(policy, DeadlineQueue):
+        ce = ref.count_expired(now_ns)
+        if (policy.count_expired(), policy.count_valid()) != (ce, len(ref) - ce):
+            return f"count_expired/count_valid {(policy.count_expired(), policy.count_valid())} != {(ce, len(ref) - ce)}"
+    elif isinstance(policy, (FairQueue, WeightedFairQueue)):
+        if policy.flow_count != len(ref.rot):
+            return f"flow_count {policy.flow_count} != {len(ref.rot)}"
+        for f in ("f0", "f1", "f2", "f3"):
+            if policy.get_flow_depth(f) != ref.flow_depth(f):
+                return f"get_flow_depth({f}) {policy.get_flow_depth(f)} != {ref.flow_depth(f)}"
+    elif isinstance(policy, AdaptiveLIFO):
+        want = len(ref) >= ref.threshold
+        if policy.is_congested != want or policy.mode != ("LIFO" if want else "FIFO"):
+            return f"is_congested={policy.is_congested} mode={policy.mode} with {len(ref)} held, threshold {ref.threshold}"
+    elif isinstance(policy, REDQueue):
+        if policy.avg_queue_length != ref.avg:
+            return f"avg_queue_length {policy.avg_queue_length} != {ref.avg}"
     return None
 
 
@@ -706,6 +738,26 @@ class QRStage(Stage):
                 self.ctx.hit("probe.shift_raise_from_zero_with_backlog")
         if new == 0:
             self.ctx.hit("probe.shift_zero_capacity")
+
+    def housekeep(self, returned):
+        """a scripted DeadlineQueue.purge_expired() call happened on this stage's policy"""
+        if not isinstance(self.ref, RefDeadline):
+            return
+        ctx = self.ctx
+        dropped = self.ref.purge(ctx.now_ns)
+        for d in dropped:
+            self.move(d["rid"], "waiting", "expired", "purge")
+            self.waiting -= 1
+        ctx.hit("probe.pipeline_purge")
+        if dropped:
+            ctx.hit("probe.pipeline_purge_removed")
+        if returned != len(dropped):
+            raise V("counters", self.pcls, "purge_expired-count-ne-model",
+                    f"purge_expired() returned {returned}, {len(dropped)} entries had expired")
+        self._depth_checks("purge")
+        p = policy_query_problem(self.policy, self.ref, ctx.now_ns)
+        if p:
+            raise V("policy", self.pcls, "query-ne-model", p)
 
     def ctl_limit(self, n):
         if self.kind != "server" or self.cfg["conc"]["model"] != "dynamic":
@@ -1286,6 +1338,8 @@ class Pipeline:
         for c in self.sc.get("ctl", []):
             evs.append(Event(time=Instant(c["t"]), event_type="ctl", target=self.ctl,
                              context={"stage": c["stage"], "limit": c["limit"]}))
+        for c in self.sc.get("purge", []):
+            evs.append(Event(time=Instant(c["t"]), event_type="purge", target=self.ctl, context={"stage": c["stage"]}))
         for st in self.stages:
             if isinstance(st, GateStage):
                 evs.extend(st.start_events())
@@ -1314,6 +1368,10 @@ class Pipeline:
             return
         if ev.target is self.ctl:
             st = self.stages[ev.context["stage"]]
+            if ev.event_type == "purge":
+                if self.ctl.last_purge is not None and isinstance(st, QRStage):
+                    st.housekeep(self.ctl.last_purge)
+                return
             st.ctl_limit(ev.context["limit"])
             return
 
@@ -1422,6 +1480,27 @@ class PolicyBench(Entity):
                         f"pop returned rid {grid}, the policy's order says rid {wrid} (t={now}ns)")
             self.trace.append(("pop", grid))
             self._common("pop")
+        elif op["op"] == "purge":
+            # DeadlineQueue.purge_expired(): the only public maintenance method any policy has
+            if hasattr(pol, "purge_expired"):
+                want = ref.purge(now)
+                got = pol.purge_expired()
+                if got != len(want):
+                    raise V("counters", self.pcls, "purge_expired-count-ne-model",
+                            f"purge_expired() returned {got}, {len(want)} entries had expired (t={now}ns)")
+                self._hit("probe.policy_purge")
+                if want:
+                    self._hit("probe.policy_purge_removed")
+                    if len(ref) >= 3:
+                        self._hit("probe.policy_purge_left_3plus")
+                self.trace.append(("purge", got))
+                self._common("purge")
+        elif op["op"] == "query":
+            p = policy_query_problem(pol, ref, now)
+            if p:
+                raise V("policy", self.pcls, "query-ne-model", p)
+            self._hit("probe.policy_query")
+            self._common("query")
         elif op["op"] == "peek":
             got = pol.peek()
             want = ref.head(now)
